@@ -38,7 +38,13 @@ CAND = {
     "boolean": [("True", V), ("False", V), ("0", V), ("1", V), ("2", R), ("-1", R), ("255", R), ("0.5", W), ("'1'", W), ("None", V)],
     "float": [("1.5", V), ("nan", V), ("3", V), ("'1.5'", W), ("'x'", W), ("None", V), ("True", W)],
     "datetime": [("dt(2020,1,1)", V), ("dt(2020,1,1,tz=off(5,30))", V), ("'2020-01-01T00:00:00'", V), ("1600000000", V), ("'not a date'", W), ("None", V),
-                 ("b'2020-01-01'", V), ("1e20", W)],
+                 ("b'2020-01-01'", V), ("1e20", W),
+                 # values built through the field type class itself, by every constructor it inherits
+                 ("ft.datetime(2020,1,1,tzinfo=None)", V), ("ft.datetime(2020,1,1,0,0,0,0,None)", V), ("ft.datetime(2020,1,1,0,0,0,0)", V),
+                 ("ft.datetime.combine(date(2020,1,1), time(1,2,3))", V), ("ft.datetime.combine(date(2020,1,1), time(1,2,3,tzinfo=off(2)))", V),
+                 ("ft.datetime.fromtimestamp(86400)", V), ("ft.datetime.utcfromtimestamp(86400)", V), ("ft.datetime.fromtimestamp(86400, UTC)", V),
+                 ("ft.datetime.fromisoformat('2020-01-01T00:00:00')", V),
+                 ("ft.datetime.fromordinal(737425)", V), ("ft.datetime(2020,1,1) + (dt(2020,1,2) - dt(2020,1,1))", V)],
     "digest": [("('d41d8cd98f00b204e9800998ecf8427e', None, None)", V), ("(None, 'da39a3ee5e6b4b0d3255bfef95601890afd80709', None)", V),
                ("('d41d8cd98f00b204e9800998ecf8427e00', None, None)", R), ("('d41d8cd98f00b204e9800998ecf842', None, None)", R), ("('zz1d8cd98f00b204e9800998ecf8427e', None, None)", R),
                ("(None, 'd41d8cd98f00b204e9800998ecf8427e', None)", R), ("(None, None, 'd41d8cd98f00b204e9800998ecf8427e')", R),
